@@ -114,6 +114,27 @@ pub fn law(a: &[u8], sep: &[u8], b: &[u8], rep: &mut Reporter, case_idx: u64) {
     let rb = records_checked(b, rep, case_idx, "B");
     let rab = records_checked(&ab, rep, case_idx, "A+nl+B");
     rep.count("law_applications", 1);
+    // the same law through the positional entry points of the iterator
+    {
+        let show = |v: &[NItem<'_>]| v.iter().map(|g| format!("{:?}", g.clone().map_err(strip_terms))).collect::<Vec<_>>();
+        let lim = ra.len() + rb.len() + 4;
+        let skipped = show(&cur::records_skip(&ab, ra.len(), lim));
+        let (cnt, _) = cur::records_count_last(&ab);
+        let nth = cur::records_nth(&ab, ra.len()).map(|g| format!("{:?}", g.map_err(strip_terms)));
+        let via_next = show(&rab);
+        let tail: Vec<String> = via_next.iter().skip(ra.len()).cloned().collect();
+        rep.count("positional_entry_point_checks", 1);
+        if skipped != tail || cnt != rab.len() || nth != tail.first().cloned() {
+            let mut d = Json::obj();
+            d.set("A", text_json(a));
+            d.set("separator", text_json(sep));
+            d.set("B", text_json(b));
+            d.set("next_sequence", Json::s(format!("{via_next:?}")));
+            d.set("skip_len_records_A", Json::s(format!("{skipped:?}")));
+            d.set("count", Json::i(cnt as u64));
+            rep.violation(case_idx, "concatenation-law", "skip/nth/count over A+nl+B disagree with the next() sequence", d);
+        }
+    }
     let exp: Vec<&NItem<'_>> = ra.iter().chain(rb.iter()).collect();
     let got: Vec<&NItem<'_>> = rab.iter().collect();
     if !ra.is_empty() && !rb.is_empty() {
@@ -200,7 +221,19 @@ fn hostile_piece(rng: &mut Rng) -> Vec<u8> {
             t.repeat(n)
         }
         10 => {
-            let l = *rng.pick(&["x", "a -> b:", "    void f() -> a", "# c: d", "# {\"id\":\"sourceFile\",\"fileName\":\"F.kt\"}", "bad line"]);
+            let l = *rng.pick(&[
+                "x",
+                "a -> b:",
+                "    void f() -> a",
+                "# c: d",
+                "# {\"id\":\"sourceFile\",\"fileName\":\"F.kt\"}",
+                "bad line",
+                // lines that yield two items: a record followed by an error for the rest of the line
+                "a -> b:garbage",
+                "a -> b:    void f() -> c",
+                "# {\"id\":\"sourceFile\",\"fileName\":\"F.kt\"}junk",
+                "a -> b:c -> d:e",
+            ]);
             let t = *rng.pick(&["", "\n", "\r\n", "\n\n", "\r", "\r\n\r\n"]);
             format!("{l}{t}").into_bytes()
         }
